@@ -5,7 +5,10 @@
 (* The driver performs random sequences of public operations on the REAL   *)
 (* generator / RandomReader / Catalog.from_random and records, per         *)
 (* operation, what the implementation did:                                 *)
-(*   op, a     operation and its size / seed argument                      *)
+(*   op, a     operation and its size / seed argument (seed: 0 = the real  *)
+(*             seed 0, NoSeed = -1 = reseed() without argument); the first *)
+(*             operation is the construction <<"new", seed>>, not counted  *)
+(*             in nops                                                     *)
 (*   out       ok | ValueError | complete | abandoned                      *)
 (*   prn, resn sizes of the arrays returned by the probe call / by every   *)
 (*             chunk call of the pass (observed at generator.__call__)     *)
@@ -53,11 +56,11 @@ Consistent ==
 
 TInit == /\ tid \in 1..Len(Traces)
          /\ sc = Traces[tid].sc
-         /\ gen = [seed |-> 1, spawn |-> 0, used |-> <<>>]
+         /\ gen = NoGen
          /\ glob = 0
          /\ rd = NoReader
          /\ urd = NoReader
-         /\ pc = "idle"
+         /\ pc = "new"          \* the first recorded operation is the construction ("new", seed)
          /\ hist = <<>>
          /\ nops = 0
          /\ TLCSet(tid, 0) /\ TLCSet(10000 + tid, FALSE)
